@@ -324,8 +324,31 @@ fn definition_context__as_any_mut_reaches_the_object() {
 /// parameters" from any other choice: no mandatory parameter, two optional ones
 /// (defaults 7 and 8), ONE argument supplied: the implementation must see
 /// (supplied, 8).
+/// Contract stub for the derived `<LhsValue as Clone>::clone`, used by the
+/// default-value obligations only: "clone returns a value equal to the original",
+/// implemented for the scalar kinds; the obligations' bound is "default values of
+/// kind Int" (CBMC does not fold the variant tag of a moved `LhsValue`, so the real
+/// derived clone explores the recursive BTreeMap / Vec clone of kinds that are not
+/// there: no result in 400 s).
+pub(crate) fn lhs_value_clone__contract_scalar<'a>(v: &LhsValue<'a>) -> LhsValue<'a>
+where
+    'a: 'a,
+{
+    match v {
+        LhsValue::Int(i) => LhsValue::Int(*i),
+        LhsValue::Bool(b) => LhsValue::Bool(*b),
+        LhsValue::Ip(ip) => LhsValue::Ip(*ip),
+        _ => {
+            // outside the bound of these obligations (compound / bytes defaults)
+            kani::assume(false);
+            unreachable!()
+        }
+    }
+}
+
 #[kani::proof]
 #[kani::stub(std::mem::drop, crate::lhs_types::verif_kani::common::mem_drop__releases_nothing_observable)]
+#[kani::stub(<crate::types::LhsValue as std::clone::Clone>::clone, lhs_value_clone__contract_scalar)]
 #[kani::unwind(3)]
 fn simple_function_compile__two_optionals_one_supplied() {
     let mut opt_params = Vec::with_capacity(2);
